@@ -9,6 +9,7 @@ import (
 	"math/big"
 
 	"github.com/bytemare/secp256k1"
+	"github.com/bytemare/secp256k1/internal/field"
 	"github.com/bytemare/secp256k1/zz_verif/gen"
 	"github.com/bytemare/secp256k1/zz_verif/oracle"
 )
@@ -300,12 +301,17 @@ func ApplyElemMove(e *secp256k1.Element, mv ElemMove) {
 	}
 }
 
+var noiseExceptional = func() []*big.Int {
+	ex, _ := oracle.FSqrt(oracle.FNeg(oracle.FInv0(oracle.Z)))
+	return []*big.Int{big.NewInt(0), ex, oracle.FNeg(ex)}
+}()
+
 // Noise calls a few unrelated API functions on throw-away objects. A library without mutable global state cannot be
 // influenced by it; a library that keeps one (a lazily initialised constant, a pooled buffer, a "last result" memo)
 // may be. Checks sprinkle it between cases so that no monitored call is always the first of its kind in the process.
 func Noise(r *gen.Rng) {
 	for i := 0; i < 3; i++ {
-		switch r.Intn(14) {
+		switch r.Intn(18) {
 		case 0:
 			secp256k1.NewScalar().MinusOne()
 		case 1:
@@ -335,9 +341,30 @@ func Noise(r *gen.Rng) {
 			a.LessOrEqual(secp256k1.NewScalar())
 		case 12:
 			secp256k1.Base().Subtract(secp256k1.Base()).Encode()
-		default:
+		case 13:
 			x := secp256k1.NewScalar().SetUInt64(r.U64() | 1)
 			x.Copy().Invert().Multiply(x).IsOne()
+		case 14:
+			// the exported map-to-curve entry points on their exceptional inputs (u = 0 and u^2 = -1/Z)
+			u := noiseExceptional[r.Intn(len(noiseExceptional))]
+			secp256k1.IsogenySecp256k13iso(secp256k1.SSWU(FE(u))).Encode()
+		case 15:
+			// the caller owns every slice it is handed
+			e := secp256k1.Base().Double()
+			for _, b := range [][]byte{e.Encode(), e.EncodeUncompressed(), e.XCoordinate(), secp256k1.NewElement().Encode(), secp256k1.NewElement().EncodeUncompressed(),
+				secp256k1.NewScalar().Encode(), secp256k1.NewScalar().MinusOne().Encode(), secp256k1.Order()} {
+				full := b[:cap(b)]
+				for i := range full {
+					full[i] ^= 0x3c
+				}
+			}
+		case 16:
+			var y field.Element
+			secp256k1.Secp256Polynomial(&y, FE(big.NewInt(int64(r.Intn(9)))))
+		default:
+			// the documented mistake, recovered from
+			_, _ = Call(func() { secp256k1.HashToGroup([]byte("x"), nil) })
+			_, _ = Call(func() { secp256k1.EncodeToGroup(nil, []byte{}) })
 		}
 	}
 }
